@@ -7,7 +7,7 @@ use std::convert::TryInto;
 use serde_json::Value;
 
 use crate::error::Error;
-use crate::value::{Evaluated, Parsed};
+use crate::value::Evaluated;
 use crate::NULL;
 
 /// Valid types of variable keys
@@ -94,11 +94,14 @@ pub fn var(data: &Value, args: &Vec<&Value>) -> Result<Value, Error> {
     let key = args[0].try_into()?;
     let val = get_key(data, key);
 
-    Ok(val.unwrap_or(if arg_count < 2 {
-        NULL
-    } else {
-        let _parsed_default = Parsed::from_value(args[1])?;
-        _parsed_default.evaluate(&data)?.into()
+    // The default, like every operand of a data operator, arrives here
+    // already evaluated: it is a plain value and must not be parsed again.
+    Ok(val.unwrap_or_else(|| {
+        if arg_count < 2 {
+            NULL
+        } else {
+            args[1].clone()
+        }
     }))
 }
 
